@@ -1313,6 +1313,16 @@ class Message(ABC):
             field_name = proto_meta.field_name_by_number.get(parsed.number)
             if not field_name:
                 self._unknown_fields += parsed.raw
+                if size is not None:
+                    # Unknown fields count towards the announced size too.
+                    read += len(parsed.raw)
+                    if read == size:
+                        break
+                    elif read > size:
+                        raise ValueError(
+                            f"Expected message of size {size}, but an unknown "
+                            f"field ends after {read} bytes."
+                        )
                 continue
 
             meta = proto_meta.meta_by_field_name[field_name]
